@@ -132,7 +132,9 @@ C12_EndFlush == Only("count_end_flush") = {}
 C12_Mixed    == Only("count_mixed_keys") = {}
 (* C06 at the operator output: fails on the code as written for timed inputs with a watermark (F5) *)
 C06_LateResult == LateResultViol(inp, outs) = {}
-C12_All == LET v == Viol IN IF v = {} THEN TRUE ELSE PrintT(<<"MODELVIOL", v>>) /\ FALSE
+(* the predicates are monotone in the history (a violation of a prefix stays one), every behaviour
+   can be completed within the bounds: judging the complete behaviours judges all prefixes *)
+C12_All == done => LET v == Viol IN IF v = {} THEN TRUE ELSE PrintT(<<"MODELVIOL", v>>) /\ FALSE
 
 TypeOK == \A k \in KEYS : Len(st[k]) <= (p.n + p.s - 1) \div p.s
 
